@@ -52,7 +52,7 @@ fn image(p: &CaoCompiledProgram) -> String {
     ids.sort();
     let mut names: Vec<(u32, String)> = p.variables.names.iter().map(|(h, n)| (h.value(), n.clone())).collect();
     names.sort();
-    let mut trace: Vec<(u32, String)> = p.trace.iter().map(|(k, t)| (*k, format!("{t}"))).collect();
+    let mut trace: Vec<(u32, String)> = p.trace.iter().map(|(k, t)| (*k, format!("{:?}/{}/{:?}", t.namespace.iter().map(|n| n.to_string()).collect::<Vec<_>>(), t.index.function, t.index.card_index.indices.iter().copied().collect::<Vec<u32>>()))).collect();
     trace.sort();
     format!(
         "bc:{:?}|data:{:?}|labels:{labels:?}|ids:{ids:?}|names:{names:?}|ver:{}|trace:{trace:?}|lens:{},{},{},{}",
@@ -382,6 +382,9 @@ fn owned_universe() -> Vec<OwnedValue> {
         OwnedValue::Integer(i64::MAX),
         OwnedValue::Real(0.5),
         OwnedValue::Real(-2.0),
+        // not a short decimal: needs the exact float parser of the JSON crate (its float_roundtrip
+        // feature, which the harness enables; the default parser is off by one ulp here)
+        OwnedValue::Real(1.0715660391465826e-75),
         OwnedValue::String(String::new()),
         OwnedValue::String("text é".into()),
     ];
@@ -396,7 +399,7 @@ fn owned_universe() -> Vec<OwnedValue> {
         }
         for (j, k2) in keys.iter().enumerate() {
             if i != j {
-                depth1.push(OwnedValue::Table(vec![entry(k1, &leaves[1]), entry(k2, &leaves[7])]));
+                depth1.push(OwnedValue::Table(vec![entry(k1, &leaves[1]), entry(k2, leaves.last().unwrap())]));
             }
         }
     }
@@ -531,10 +534,10 @@ fn families(tier: Tier) -> &'static Vec<Box<dyn Family>> {
     use cvx_core::gen_c04::FKinds;
     use cvx_core::gen_closure::FClosureNest;
     use cvx_core::gen_errloc::FErrInject;
-    use cvx_core::gen_resolve::FResolve;
+    use cvx_core::gen_resolve::{FDigitNames, FResolve};
     match tier {
-        Tier::Quick => QUICK.get_or_init(|| vec![Box::new(FKinds), Box::new(FStmt::new(1)), Box::new(FClosureNest), Box::new(FErrInject::new())]),
-        Tier::Thorough => THOROUGH.get_or_init(|| vec![Box::new(FKinds), Box::new(FStmt::new(1)), Box::new(FClosureNest), Box::new(FErrInject::new()), Box::new(FStmt::new(2)), Box::new(FResolve)]),
+        Tier::Quick => QUICK.get_or_init(|| vec![Box::new(FDigitNames), Box::new(FKinds), Box::new(FStmt::new(1)), Box::new(FClosureNest), Box::new(FErrInject::new())]),
+        Tier::Thorough => THOROUGH.get_or_init(|| vec![Box::new(FDigitNames), Box::new(FKinds), Box::new(FStmt::new(1)), Box::new(FClosureNest), Box::new(FErrInject::new()), Box::new(FStmt::new(2)), Box::new(FResolve)]),
     }
 }
 
